@@ -20,12 +20,24 @@
   A nested structure is parsed with a FRESH context (`StructureMetaType._read` starts from an empty `result`), so the typing
   rule for `.struct` types the fields from `[]` whatever the outer context is: a length expression cannot refer to a field
   of an enclosing structure.
-  Out of the fragment: `x[EOF]`, unions, null-terminated arrays of structures, floats as null-terminated elements.
+  Out of the fragment: `x[EOF]` (known finding: an aligned structure ending in one), unions, null-terminated arrays of
+  structures, floats as null-terminated elements.
+
+  Theorems: packed mode `roundtrip_D_packed` / `write_total_D_packed` / `dumps_roundtrip_D_packed` (every start position,
+  bit-fields anywhere, no layout hypothesis for the round trip); aligned mode `roundtrip_D_aligned` / `write_total_D_aligned`
+  / `dumps_roundtrip_D_aligned` (bit-fields under `bitsNatural`, aligned start position) and the `…_nobits` variants
+  (no hypothesis on storage units or on the definition); `roundtrip_D` = both modes in the shape of `roundtrip_SB`.
 -/
 import Proofs.Spec.CoreDyn
 import Proofs.Lemmas.CoreDynC
 import Proofs.Lemmas.CoreDynW
 import Proofs.Lemmas.CoreDynEx
+import Proofs.Lemmas.CoreDynAl
+import Proofs.Lemmas.CoreDynAlW
+import Proofs.Lemmas.CoreDynEx2
+import Proofs.Lemmas.CoreDynAB
+import Proofs.Lemmas.CoreDynABW
+import Proofs.Lemmas.CoreDynEx3
 
 namespace Cstruct.Core
 open Cstruct
@@ -66,6 +78,87 @@ theorem dumps_roundtrip_D_packed (cfg : Cfg) (ty : Ty) (hS : ty.fragD cfg = true
   have h := roundtrip_D_packed cfg ty hS hu ctx v hv 0 bs hw [] post rfl
   simpa using h
 
+/-! ### Aligned mode
+  In aligned mode a member behind a dynamic one has no layout offset; writer and reader both pad by the ABSOLUTE position
+  (`padNat pos alignment`), and the trailing padding of a structure is computed from the absolute position as well; a
+  bit-field behind a dynamic member opens its unit at the padded absolute position. As in `roundtrip_S`/`roundtrip_SB`:
+  one `align` flag throughout, power-of-two alignments, a start position that is a multiple of the alignments occurring
+  in the type (position 0 for `dumps`), and every bit-field storage scalar has `size = alignment` (`bitsNatural`; the known
+  finding for int24/int48 storage types recorded in `Proofs/CoreBits.lean` is about exactly the other case). Unlike
+  `roundtrip_SB` there is no hypothesis on the definition: `hw` (writing succeeded) is enough.
+  The hypothesis on the start position cannot be dropped: for the aligned
+  `struct { struct { uint8 a; uint32 b; } x; uint8 y; }` written at position 1 the inner structure is padded to the absolute
+  position 12 (11 bytes instead of its size 8), `y` is written there, and the reader seeks back to `start + 8 = 9`, returns
+  `y = 0` and ends at position 12 (checked with `#eval`). `dumps` always starts at 0 and every nested structure starts at a
+  multiple of its alignment (that is the invariant of the proof), so this is not a violation of C01. -/
+
+/-- **Round trip (fragment D, aligned)**, bit-fields included. -/
+theorem roundtrip_D_aligned (cfg : Cfg) (ty : Ty) (hS : ty.fragD cfg = true) (hu : ty.uniformAlign true = true)
+    (hp : ty.pow2Aligned cfg) (hn : ty.bitsNatural cfg = true) (ctx : Ctx) (v : Val) (hv : HasTyD cfg ctx v ty)
+    (pos : Nat) (hal : ty.alignsDivide cfg pos = true) (bs : Bytes) (hw : write cfg ty v pos = .ok bs)
+    (pre post : Bytes) (hpre : pre.length = pos) :
+    read cfg ty ctx (pre ++ bs ++ post) pos = .ok (v, pos + bs.length) :=
+  (Lemmas.bD_ty cfg ty hS hu hp hn ctx v hv pos (Lemmas.sAlign_dvd_of_alignsDivide cfg pos ty hal) bs hw).2.2 pre post hpre
+
+/-- the number of bytes written in aligned mode for a value of a type of fragment D that has a static size is that size -/
+theorem write_size_D_aligned (cfg : Cfg) (ty : Ty) (hS : ty.fragD cfg = true) (hu : ty.uniformAlign true = true)
+    (hp : ty.pow2Aligned cfg) (hn : ty.bitsNatural cfg = true) (ctx : Ctx) (v : Val) (hv : HasTyD cfg ctx v ty)
+    (pos : Nat) (hal : ty.alignsDivide cfg pos = true) (bs : Bytes) (hw : write cfg ty v pos = .ok bs)
+    (k : Nat) (hk : ty.size cfg = some k) : bs.length = k :=
+  (Lemmas.bD_ty cfg ty hS hu hp hn ctx v hv pos (Lemmas.sAlign_dvd_of_alignsDivide cfg pos ty hal) bs hw).1 k hk
+
+/-- **Writing is total on the values of the type (fragment D, aligned)**, provided the definition is accepted. -/
+theorem write_total_D_aligned (cfg : Cfg) (ty : Ty) (hS : ty.fragD cfg = true) (hu : ty.uniformAlign true = true)
+    (hp : ty.pow2Aligned cfg) (hn : ty.bitsNatural cfg = true) (hd : ty.defErr cfg = none) (ctx : Ctx) (v : Val)
+    (hv : HasTyD cfg ctx v ty) (pos : Nat) (hal : ty.alignsDivide cfg pos = true) : ∃ bs, write cfg ty v pos = .ok bs :=
+  Lemmas.wtB_ty cfg ty hS hu hp hn hd ctx v hv pos (Lemmas.sAlign_dvd_of_alignsDivide cfg pos ty hal)
+
+/-- **`dumps` then parse (fragment D, aligned)**. -/
+theorem dumps_roundtrip_D_aligned (cfg : Cfg) (ty : Ty) (hS : ty.fragD cfg = true) (hu : ty.uniformAlign true = true)
+    (hp : ty.pow2Aligned cfg) (hn : ty.bitsNatural cfg = true) (hd : ty.defErr cfg = none) (ctx : Ctx) (v : Val)
+    (hv : HasTyD cfg ctx v ty) :
+    ∃ bs, dumps cfg ty v = .ok bs ∧ ∀ post, read cfg ty ctx (bs ++ post) 0 = .ok (v, bs.length) := by
+  obtain ⟨bs, hw⟩ := Lemmas.wtB_ty cfg ty hS hu hp hn hd ctx v hv 0 (Nat.dvd_zero _)
+  refine ⟨bs, hw, fun post => ?_⟩
+  have h := (Lemmas.bD_ty cfg ty hS hu hp hn ctx v hv 0 (Nat.dvd_zero _) bs hw).2.2 [] post rfl
+  simpa using h
+
+/-- **Round trip (fragment D, packed or aligned)**: the two modes in the shape of `roundtrip_SB`. -/
+theorem roundtrip_D (cfg : Cfg) (al : Bool) (ty : Ty) (hS : ty.fragD cfg = true) (hu : ty.uniformAlign al = true)
+    (hp : ty.pow2Aligned cfg) (hn : al = true → ty.bitsNatural cfg = true) (ctx : Ctx) (v : Val)
+    (hv : HasTyD cfg ctx v ty) (pos : Nat) (hal : ty.alignsDivide cfg pos = true) (bs : Bytes)
+    (hw : write cfg ty v pos = .ok bs) (pre post : Bytes) (hpre : pre.length = pos) :
+    read cfg ty ctx (pre ++ bs ++ post) pos = .ok (v, pos + bs.length) := by
+  cases al with
+  | false => exact roundtrip_D_packed cfg ty hS hu ctx v hv pos bs hw pre post hpre
+  | true => exact roundtrip_D_aligned cfg ty hS hu hp (hn rfl) ctx v hv pos hal bs hw pre post hpre
+
+/-! #### Aligned mode without bit-fields: no hypothesis on storage units or on the definition -/
+
+/-- **Round trip (fragment D without bit-fields, aligned).** -/
+theorem roundtrip_D_aligned_nobits (cfg : Cfg) (ty : Ty) (hS : ty.fragD cfg = true) (hB : ty.noBits = true)
+    (hu : ty.uniformAlign true = true) (hp : ty.pow2Aligned cfg) (ctx : Ctx) (v : Val) (hv : HasTyD cfg ctx v ty)
+    (pos : Nat) (hal : ty.alignsDivide cfg pos = true) (bs : Bytes) (hw : write cfg ty v pos = .ok bs)
+    (pre post : Bytes) (hpre : pre.length = pos) :
+    read cfg ty ctx (pre ++ bs ++ post) pos = .ok (v, pos + bs.length) :=
+  (Lemmas.aD_ty cfg ty hS hB hu hp ctx v hv pos (Lemmas.sAlign_dvd_of_alignsDivide cfg pos ty hal) bs hw).2.2 pre post hpre
+
+/-- **Writing is total on the values of the type (fragment D without bit-fields, aligned)**: without bit-fields no layout
+    is ever rejected, so there is no hypothesis on the definition. -/
+theorem write_total_D_aligned_nobits (cfg : Cfg) (ty : Ty) (hS : ty.fragD cfg = true) (hB : ty.noBits = true)
+    (hu : ty.uniformAlign true = true) (hp : ty.pow2Aligned cfg) (ctx : Ctx) (v : Val) (hv : HasTyD cfg ctx v ty)
+    (pos : Nat) (hal : ty.alignsDivide cfg pos = true) : ∃ bs, write cfg ty v pos = .ok bs :=
+  Lemmas.wtA_ty cfg ty hS hB hu hp ctx v hv pos (Lemmas.sAlign_dvd_of_alignsDivide cfg pos ty hal)
+
+/-- **`dumps` then parse (fragment D without bit-fields, aligned)**. -/
+theorem dumps_roundtrip_D_aligned_nobits (cfg : Cfg) (ty : Ty) (hS : ty.fragD cfg = true) (hB : ty.noBits = true)
+    (hu : ty.uniformAlign true = true) (hp : ty.pow2Aligned cfg) (ctx : Ctx) (v : Val) (hv : HasTyD cfg ctx v ty) :
+    ∃ bs, dumps cfg ty v = .ok bs ∧ ∀ post, read cfg ty ctx (bs ++ post) 0 = .ok (v, bs.length) := by
+  obtain ⟨bs, hw⟩ := Lemmas.wtA_ty cfg ty hS hB hu hp ctx v hv 0 (Nat.dvd_zero _)
+  refine ⟨bs, hw, fun post => ?_⟩
+  have h := (Lemmas.aD_ty cfg ty hS hB hu hp ctx v hv 0 (Nat.dvd_zero _) bs hw).2.2 [] post rfl
+  simpa using h
+
 /-! ### Non-vacuity
   `struct { uint8 n; uint16 a[n * 2]; ileb128 v; char s[]; uint8 tail; }`, packed, little endian, with the value
   `n = 1, a = [0x1234, 7], v = -300, s = b"hi", tail = 9`. -/
@@ -95,5 +188,32 @@ example : ¬ HasTyD cfgL [("n", .int 1)] (.list (.cons (.int 5) .nil)) arrA := b
     cases hc
     cases hN with
     | cons _ h' => cases h'
+
+-- aligned: `struct { uint8 n; uint16 a[n]; char s[]; uint32 x; uint8 tail; }` with `n = 1, a = [7], s = b"hi",
+-- x = 0x01020304, tail = 9`: `a` at its layout offset 2, `x` padded to the absolute position 8, three bytes of trailing padding
+open ExD in
+example : tyQ.fragD cfgL = true ∧ tyQ.noBits = true ∧ tyQ.uniformAlign true = true ∧ tyQ.alignsDivide cfgL 0 = true ∧
+    tyQ.size cfgL = none := by decide +kernel
+open ExD in
+example : write cfgL tyQ (.record wsN) 0 = .ok [1, 0, 7, 0, 104, 105, 0, 0, 4, 3, 2, 1, 9, 0, 0, 0] := ex_write_al
+open ExD in
+example (post : Bytes) (ctx : Ctx) :
+    read cfgL tyQ ctx ([1, 0, 7, 0, 104, 105, 0, 0, 4, 3, 2, 1, 9, 0, 0, 0] ++ post) 0 = .ok (.record wsN, 16) := by
+  have h := roundtrip_D_aligned_nobits cfgL tyQ (by decide +kernel) (by decide +kernel) (by decide +kernel) ex_p2_al ctx
+    (.record wsN) (.struct (by have := ex_typed_al; cases this; assumption)) 0 (by decide +kernel) _ ex_write_al [] post rfl
+  simpa [bytesQ] using h
+-- aligned with bit-fields behind a dynamic member: `struct { char s[]; uint16 a:3; E b:5; uint8 d; }` (`E` an enum over
+-- `uint16`) with `s = b"AB", a = 5, b = E(9), d = 77`: the unit is opened at the padded absolute position 4
+open ExD in
+example : tyR.fragD cfgL = true ∧ tyR.uniformAlign true = true ∧ tyR.bitsNatural cfgL = true ∧ tyR.defErr cfgL = none ∧
+    tyR.alignsDivide cfgL 0 = true ∧ tyR.size cfgL = none := by decide +kernel
+open ExD in
+example : write cfgL tyR (.record xsS) 0 = .ok [65, 66, 0, 0, 77, 0, 77, 0] := ex_write_bits
+open ExD in
+example (post : Bytes) (ctx : Ctx) :
+    read cfgL tyR ctx ([65, 66, 0, 0, 77, 0, 77, 0] ++ post) 0 = .ok (.record xsS, 8) := by
+  have h := roundtrip_D_aligned cfgL tyR (by decide +kernel) (by decide +kernel) ex_p2_bits (by decide +kernel) ctx
+    (.record xsS) (.struct (by have := ex_typed_bits; cases this; assumption)) 0 (by decide +kernel) _ ex_write_bits [] post rfl
+  simpa [bytesR] using h
 
 end Cstruct.Core
